@@ -123,6 +123,13 @@ def probes(syn, key, val):
     yield 'override', key, {'snippets': {key: 'foo-prop:bar'}}, eq('foo-prop' + between + 'bar' + after, 'user-override-ignored:key=' + key)
     yield 'override-raw', key, {'snippets': {key: 'raw ${1:body} text'}}, eq('raw body text', 'user-override-ignored:key=' + key)
     yield 'new-key', 'zzq', {'snippets': {'zzq': 'foo-prop:bar', key: val}}, eq('foo-prop' + between + 'bar' + after, 'new-key-unreachable')
+    # user-defined property snippets of other shapes: vendor-prefixed / custom property names, several listed values
+    for body, prop, first, kw in (('-webkit-foo:none|auto', '-webkit-foo', 'none', 'auto'), ('--my-var:red|blue', '--my-var', 'red', 'blue'),
+                                  ('foo:bar baz|qux', 'foo', 'bar baz', 'qux')):
+        yield 'override-shape', key, {'snippets': {key: body}}, eq(prop + between + first + after, 'user-override-ignored:key=' + key)
+        yield 'new-key-shape', 'zzq', {'snippets': {'zzq': body, key: val}}, eq(prop + between + first + after, 'new-key-unreachable')
+        yield 'new-key-keyword', 'zzq:' + kw, {'snippets': {'zzq': body, key: val}}, eq(prop + between + kw + after, 'new-key-keyword-not-resolved')
+        yield 'new-key-property-scope', 'zzq', {'snippets': {'zzq': body, key: val}, 'context': {'name': '@@property'}}, eq(prop + between + first + after, 'scope:property-prop-unreachable')
     # raw bodies are compared with their tabstops (exact text): leading, adjacent and trailing tabstops
     for body in ('${1:sel} {\n\t${0}\n}', '-moz-${1:p}${2}: ${3};', 'a ${1} b ${2:c}'):
         yield 'new-key-raw', 'zzr', {'snippets': {'zzr': body, key: val}}, exact(body, 'raw-body-tabstops-changed')
